@@ -43,7 +43,32 @@ func (k poolKey) desc() string {
 var (
 	poolOnce sync.Once
 	pool     []poolKey
+	// otherKeys: per modulus size that occurs once in the pool, a second key of that size (see
+	// rsa_other_keys_test.go); idx -1, never a key under test.
+	otherKeys = map[int]poolKey{}
 )
+
+// keyFromPrimes builds a pool entry from two primes (e = 65537).
+func keyFromPrimes(t testing.TB, idx, bits int, pHex, qHex string) poolKey {
+	pp, ok1 := new(big.Int).SetString(pHex, 16)
+	qq, ok2 := new(big.Int).SetString(qHex, 16)
+	if !ok1 || !ok2 {
+		t.Fatalf("harness: embedded RSA-%d key does not parse", bits)
+	}
+	one := big.NewInt(1)
+	n := new(big.Int).Mul(pp, qq)
+	d := new(big.Int).ModInverse(big.NewInt(65537), new(big.Int).Mul(new(big.Int).Sub(pp, one), new(big.Int).Sub(qq, one)))
+	if n.BitLen() != bits || d == nil {
+		t.Fatalf("harness: embedded RSA-%d key has a %d-bit modulus", bits, n.BitLen())
+	}
+	k := &stdrsa.PrivateKey{PublicKey: stdrsa.PublicKey{N: n, E: 65537}, D: d, Primes: []*big.Int{pp, qq}}
+	k.Precompute()
+	if err := k.Validate(); err != nil {
+		t.Fatalf("harness: embedded RSA-%d key does not validate: %v", bits, err)
+	}
+	pub := sigref.RSAPublic{N: n, E: 65537}
+	return poolKey{idx: idx, bits: bits, std: k, pub: pub, priv: sigref.RSAPrivate{RSAPublic: pub, D: d, P: pp, Q: qq}}
+}
 
 // ensurePool must be called before rapid.Check (it re-seeds detrand).
 func ensurePool(t testing.TB) []poolKey {
@@ -133,6 +158,21 @@ func ensurePool(t testing.TB) []poolKey {
 			pub := sigref.RSAPublic{N: n, E: 65537}
 			pool = append(pool, poolKey{idx: len(pool), bits: 4096, std: k, pub: pub, priv: sigref.RSAPrivate{RSAPublic: pub, D: d, P: pp, Q: qq}})
 		}
+		// second keys for the sizes that occur once
+		for bits, pq := range otherKeyPrimes {
+			o := keyFromPrimes(t, -1, bits, pq[0], pq[1])
+			for _, k := range pool {
+				if k.std.N.Cmp(o.std.N) == 0 {
+					t.Fatalf("harness: embedded other key of %d bits equals pool[%d]", bits, k.idx)
+				}
+			}
+			otherKeys[bits] = o
+		}
+		for _, k := range pool {
+			if o := otherPoolKey(k); o.bits != k.bits || o.pub.K() != k.pub.K() || o.std.N.Cmp(k.std.N) == 0 {
+				t.Fatalf("harness: no other key of %d bits for pool[%d]", k.bits, k.idx)
+			}
+		}
 	})
 	return pool
 }
@@ -170,14 +210,16 @@ func drawPoolKey(t *rapid.T) poolKey {
 	return pool[rapid.IntRange(2, len(pool)-1).Draw(t, "pool")]
 }
 
-// otherPoolKey is a pool key different from k, of the same size when there is one.
+// otherPoolKey is a key different from k with a modulus of the SAME bit length (another pool key, or
+// the embedded second key of that size), so that its signatures have the length the verifier expects
+// and are rejected by the RSA computation, not by the length check.
 func otherPoolKey(k poolKey) poolKey {
 	for _, o := range pool {
 		if o.idx != k.idx && o.bits == k.bits {
 			return o
 		}
 	}
-	return pool[(k.idx+1)%len(pool)]
+	return otherKeys[k.bits]
 }
 
 // rsaCandidates: integer-level manipulations common to both RSA schemes.
@@ -321,7 +363,7 @@ func TestRSAPKCS1(t *testing.T) {
 		em := sigref.PKCS1Encode(h.name, eff, pk.pub.K())
 		tLen := 19 + h.size
 		t0 := len(em) - tLen // start of DigestInfo
-		kind := rapid.SampledFrom([]string{"missing-null", "ps-short-garbage-after-hash", "block-type-02", "block-type-00", "zero-inside-ps", "ps-not-ff", "first-byte-01", "digest-of-plain-or-suffixed"}).Draw(rt, "emkind")
+		kind := gen.Pick(rt, "emkind", []string{"missing-null", "ps-short-garbage-after-hash", "block-type-02", "block-type-00", "zero-inside-ps", "ps-not-ff", "first-byte-01", "digest-of-plain-or-suffixed"})
 		bad := bytes.Clone(em)
 		switch kind {
 		case "missing-null":
@@ -354,6 +396,8 @@ func TestRSAPKCS1(t *testing.T) {
 		}
 		if s := sigref.RSASP1(pk.priv, bad); s != nil {
 			c.tryRaw(rt, "pkcs1-em-"+kind, s, msg)
+		} else { // the malformed encoded message is not below the modulus (first-byte-01): no signature exists
+			evid.Add("em_candidate_dropped/pkcs1-em-"+kind, 1)
 		}
 		c.finish(rt, msg, evid.NewH().I(int64(pk.idx)))
 	})
@@ -469,12 +513,15 @@ func TestRSAPSS(t *testing.T) {
 		auto := func(raw, effMsg []byte) bool { return sigref.VerifyPSS(pk.pub, h.name, sigref.SaltAuto, effMsg, raw) }
 		c.ref = exact
 		freshRef := exact
-		if salt == 0 {
-			// KNOWN FINDING rsassapss:salt0:* - salt length 0 reaches crypto/rsa as PSSSaltLengthAuto.  Only
-			// the two salt-strictness consequences are excluded: a candidate that is a valid PSS signature
-			// in everything but its salt length is not compared, and fresh signatures are checked with the
-			// salt length read from the encoding.
+		// KNOWN FINDING rsassapss:salt0:* - salt length 0 reaches crypto/rsa as PSSSaltLengthAuto.  Only
+		// the two salt-strictness consequences are excluded, each only while its line is in
+		// known_findings.txt: a candidate that is a valid PSS signature in everything but its salt
+		// length is not compared, and fresh signatures are checked with the salt length read from
+		// the encoding.
+		if salt == 0 && kf.Listed(propID, "rsassapss:salt0:verify-accepts-any-salt") {
 			c.excluded = func(raw, effMsg []byte) bool { return auto(raw, effMsg) != exact(raw, effMsg) }
+		}
+		if salt == 0 && kf.Listed(propID, "rsassapss:salt0:sign-uses-nonzero-salt") {
 			freshRef = auto
 		}
 		other := otherPoolKey(pk)
@@ -540,7 +587,7 @@ func TestRSAPSS(t *testing.T) {
 		if salt >= 1 {
 			kinds = append(kinds, "salt-flip")
 		}
-		kind := rapid.SampledFrom(kinds).Draw(rt, "emkind")
+		kind := gen.Pick(rt, "emkind", kinds)
 		bad := bytes.Clone(em)
 		switch kind {
 		case "trailer-bd":
@@ -566,6 +613,8 @@ func TestRSAPSS(t *testing.T) {
 		}
 		if s := sigref.RSASP1(pk.priv, bad); s != nil {
 			c.tryRaw(rt, "pss-em-"+kind, s, msg)
+		} else {
+			evid.Add("em_candidate_dropped/pss-em-"+kind, 1)
 		}
 		c.finish(rt, msg, evid.NewH().I(int64(pk.idx)).I(int64(salt)))
 	})
